@@ -223,6 +223,18 @@ func (d *DepOracle) expDepsPath(ctx *depCtx, e syntax.Exp, path []string, filt s
 						f = paramBase(ctx.pipe, exp.Id, false)
 					}
 					d.expDepsPath(ctx.parent, b.Exp, full, f, acc, depth+1)
+					if _, isSplit := b.Exp.(*syntax.SplitExp); isSplit {
+						// the pipeline is MAPPED and this input is one of the split arguments: whatever uses it
+						// is forked, and the forks (their number and keys) come from the master collection —
+						// the FIRST split argument of the call — which is therefore consumed as well
+						// ("the collection it is mapped over"), even if its element is not used
+						for _, mb := range ctx.call.Bindings.List {
+							if msp, ok := mb.Exp.(*syntax.SplitExp); ok && mb.Id != "*" {
+								d.expDepsPath(ctx.parent, msp.Value, nil, "", acc, depth+1)
+								break
+							}
+						}
+					}
 				}
 			}
 		case syntax.KindCall:
